@@ -1,4 +1,5 @@
 import SvModel.Core.Pp
+import SvModel.Lemmas.Walker
 /-!
 # C04 — conditional compilation selects exactly the IEEE 22.6 branch (decision logic)
 
@@ -141,6 +142,26 @@ theorem C04_ifndef_predefined_witness :
     condPlan false defd [65] [bLINE] false = (true, [true], false) ∧
     selectSpec false defd [65] [bLINE] = some 1 := by
   decide
+
+/-- **dead branches have no effect (walker model, all contents).** What the conditional arm does on entering an `ifdef / `ifndef node is
+    exactly: put the directive keywords, the names and the bodies selected by `condPlan` on the skip list. -/
+theorem C04_arm_pushes_plan (C : Cfg) (recI) (recU) (inp : Input) (s path : Bytes) (ii sc : Bool) (rd id : Nat) (w : WState) (x : Tree)
+    (kw ifid ifbody : Tree) (elsifs : List (Tree × Tree × Tree)) (els : Option (Tree × Tree))
+    (h : splitCond C.K x.kids = some (kw, ifid, ifbody, elsifs, els)) :
+    armCond C recI recU inp s path ii sc rd id w x =
+      .ok (skipPushAll w (condSkipNodes kw ifid ifbody elsifs els
+        (condPlan (x.baseKind == C.K.ifdef) (fun n => (w.defines.get? n).isSome) ((identOf C.K inp ifid).getD [])
+          (elsifs.map (fun e => (identOf C.K inp e.2.1).getD [])) els.isSome))) := by
+  unfold armCond; simp only [h]
+
+/-- … and a subtree on the skip list is walked without any effect — no output, no change of the define table, no error, whatever it
+    contains (defines, undefs, includes, usages of unknown macros, nested conditionals) — provided none of its proper descendants is on
+    the skip list too (the conditional arms only ever list siblings) and its own kind triggers no `Leave` bookkeeping. -/
+theorem C04_dead_branch_inert (C : Cfg) (inp : Input) (s path : Bytes) (ii sc : Bool) (rd id : Nat) (evs : List Event)
+    (t : Tree) (w : WState) (fuel : Nat) (hs : w.skip = false) (ht : w.skipNodes.contains t = true)
+    (hd : ∀ d ∈ preL t.kids, w.skipNodes.contains d = false) (hik : inertKind C.K t.baseKind = true) :
+    walk C (fuel + (events t).length) inp s path ii sc rd id (events t ++ evs) w = walk C fuel inp s path ii sc rd id evs w :=
+  walk_skip_subtree C inp s path ii sc rd id evs t w fuel hs ht hd hik
 
 /-- non-vacuity -/
 example : condPlan true (fun n => n == [66]) [65] [[88], [66], [66]] true
